@@ -186,13 +186,13 @@ class WriteTracker:
     @staticmethod
     def _interp():
         # process-wide interpreter settings are shared state too (not reachable from parso's modules)
-        return (sys.getrecursionlimit(), gc.isenabled(), len(warnings.filters), sys.getswitchinterval())
+        return (sys.getrecursionlimit(), gc.isenabled(), len(warnings.filters), sys.getswitchinterval(), gc.get_threshold())
 
     def probe(self, step, frame):
         changed = None
         i = self._interp()
         if i != self.s_interp:
-            changed = ['<interpreter> (recursion limit, gc, warnings filters, switch interval) %r -> %r' % (self.s_interp, i)]
+            changed = ['<interpreter> (recursion limit, gc, warnings filters, switch interval, gc thresholds) %r -> %r' % (self.s_interp, i)]
             self.s_interp = i
         elif step > SPARSE_AFTER and step % SPARSE:
             return                           # very long calls: containers every SPARSE lines only
